@@ -329,7 +329,9 @@ def resolve_label_conflict(mapping, existing, old_labels=None, new_labels=None):
     intermediate_to_new = {}
 
     for old, new in mapping.items():
-        if old == new:
+        # like dict, test the hash first. Some labels, e.g. NumPy integers and
+        # tuples, do not compare to a bool
+        if hash(old) == hash(new) and old == new:
             # we can remove self-labels
             continue
 
